@@ -1,4 +1,5 @@
 import SedpackProofs.TreeInterleave
+import SedpackProofs.TreeEnum
 /-!
 # C09 — Parallel writers do not interfere
 
@@ -45,6 +46,27 @@ theorem C09_no_shared_file (ws : List (List Eff)) (hown : OwnDirs ws) (i j : Nat
   rcases Nat.decEq i j with hne | heq
   · exact absurd hd (hown.2 i j hne e he f hf)
   · exact heq
+
+/-- the session a multi-writer call amounts to: writer `i`'s shards for split `s` go to its own directory `[s, u i]` -/
+def multiSession (u : Nat → Nat) (writers : List (List (Nat × List Shard))) : Session :=
+  (List.range writers.length).flatMap (fun i => (writers.getD i []).map (fun p => ([p.1, u i], p.2)))
+
+/-- **The result of the call is exact and holds exactly the writers' shards**: for every dataset reached by completed
+sessions (`Good`, `Linked`), after a multi-writer call with any number of writers (writers that write nothing included, several
+splits per writer) the metadata tree is exact again and every split enumerates what it enumerated before plus precisely the
+shards the writers closed for it — whatever the relative speeds of the worker processes (`C09_multiwriter_eq_sequential`). -/
+theorem C09_multiwriter_exact_and_adds_exactly (H : SList → Nat) (B fuel : Nat) (hfuel : B < fuel + 1) (hB : 2 ≤ B) (ds : DS)
+    (u : Nat → Nat) (writers : List (List (Nat × List Shard))) (hg : Good H B ds) (hl : Linked ds.fs) :
+    Good H B (session H fuel ds (multiSession u writers)) ∧ Linked (session H fuel ds (multiSession u writers)).fs ∧
+    ∀ s sh, sh ∈ shardsOf fuel (session H fuel ds (multiSession u writers)).fs [s] ↔
+      sh ∈ shardsOf fuel ds.fs [s] ∨ ∃ w ∈ multiSession u writers, w.1.headD 0 = s ∧ sh ∈ w.2 := by
+  have hse : ∀ w ∈ multiSession u writers, w.1 ≠ [] ∧ w.1.length ≤ B := by
+    intro w hw
+    simp only [multiSession, List.mem_flatMap, List.mem_map] at hw
+    obtain ⟨i, _, p, _, rfl⟩ := hw
+    simp; omega
+  exact ⟨(session_good H B fuel hfuel (by omega) ds _ hse hg).1, session_linked H B fuel hfuel (by omega) ds _ hse hg hl,
+    fun s sh => session_adds_exactly H B fuel hfuel (by omega) ds _ hse hg hl s sh⟩
 
 /-- Non-vacuity: two writers, one interleaving. -/
 def e00 : Eff := ⟨0, [0, 100], ⟨1, 2, [], 0, 0⟩⟩
